@@ -208,8 +208,9 @@ class Exporter
         case APValue::Array:
         {
             QualType ET;
-            if (const ArrayType* AT = Ctx.getAsArrayType(T))
-                ET = AT->getElementType();
+            if (!T.isNull())
+                if (const ArrayType* AT = Ctx.getAsArrayType(T))
+                    ET = AT->getElementType();
             J.arrayBegin();
             unsigned N = V.getArraySize();
             unsigned NI = V.getArrayInitializedElts();
@@ -229,8 +230,9 @@ class Exporter
         {
             J.arrayBegin();
             const RecordDecl* RD = nullptr;
-            if (const RecordType* RT = T->getAs<RecordType>())
-                RD = RT->getDecl();
+            if (!T.isNull())
+                if (const RecordType* RT = T->getAs<RecordType>())
+                    RD = RT->getDecl();
             std::vector<QualType> FT;
             if (RD)
                 for (const FieldDecl* F : RD->fields()) FT.push_back(F->getType());
